@@ -392,7 +392,7 @@ func main() {
 		os.WriteFile(path, []byte(sb.String()), 0o644)
 	}
 	fmt.Printf("EFFECTS: regenerated functions=%d write_sites=%d\n", nfn, nwrites)
-	if err := genTables(*repo, *out); err != nil {
+	if err := genTables(*repo, *out, pkgs); err != nil {
 		fmt.Println("TABLES: degraded (" + err.Error() + ")")
 	}
 }
